@@ -3,7 +3,7 @@
 cd "$(dirname "$0")/.." || exit 2
 ROOT=${SEEDROOT:-/tmp/seed3}
 TAG=${SEEDTAG:-w3}
-for d in $ROOT/C*/_seed/[0-9]; do
+for d in $ROOT/C*/_seed/[0-9] $ROOT/C*/_seed/b[0-9]; do
   [ -f "$d/patch.diff" ] || continue
   [ -f "$d/meta.json" ] || continue
   pid=$(echo "$d" | sed "s#$ROOT/\(C[0-9]*\)/_seed/.*#\1#")
@@ -11,5 +11,5 @@ for d in $ROOT/C*/_seed/[0-9]; do
   id="$pid-$TAG$n"
   [ -f "seeded/$id/meta.json" ] && continue
   echo "== $id"
-  /venv/bin/python tools/seedcheck.py "$d" --keep-as "$id" 2>&1 | grep -v conda | grep "confirmed\|^target\|^  \[" | cut -c1-360
+  /venv/bin/python tools/seedcheck.py "$d" --keep-as "$id" 2>&1 | grep -v conda | grep "confirmed\|^target\|^BENIGN\|^  \[" | cut -c1-360
 done
